@@ -752,6 +752,7 @@ def explain_description(
     txn_date: Optional[date] = None,
     transforms: Optional[List[Tuple[str, str]]] = None,
     field: Optional[Dict[str, str]] = None,
+    data_sources: Optional[Dict[str, List[Dict]]] = None,
 ) -> dict:
     """Trace how a description is processed and matched.
 
@@ -788,7 +789,7 @@ def explain_description(
     # normalize_merchant does): it knows the rule mode, global variables, let: bindings and
     # merchant: names, which the flattened rule tuples below do not carry
     if _cached_engine is not None:
-        engine_result = _cached_engine.match(transaction)
+        engine_result = _cached_engine.match(transaction, data_sources=data_sources)
         if engine_result.matched:
             matched = engine_result.matched_rule
             result['matched_rule'] = {
@@ -830,7 +831,7 @@ def explain_description(
             if _is_expression_pattern(pattern):
                 # Use expression parser for expression-based rules
                 # Use the already-transformed transaction
-                matches = expr_parser.matches_transaction(pattern, transaction)
+                matches = expr_parser.matches_transaction(pattern, transaction, data_sources=data_sources)
 
                 if not matches:
                     continue
